@@ -520,6 +520,9 @@ impl TransportVisitor for VGpu {
 
 pub fn run_gpu(tkind: TKind, depth: usize) {
     hal::reset();
+    // The driver keeps its command and response buffers to itself: a buffer that is rewritten
+    // while a request naming it is still shared with the device shows at unshare.
+    hal::with(|h| h.watch_writes = true);
     let feats = [F_VERSION_1 | 2, F_VERSION_1 | F_INDIRECT | F_EVENT_IDX];
     let offered = feats[choose(feats.len(), "offered features")];
     let w = DWorld::new(Kind::Gpu, tkind, offered, Kind::Gpu.default_config());
